@@ -17,7 +17,9 @@ import (
 	"time"
 
 	"github.com/specterops/dawgs/cypher/frontend"
+	"github.com/specterops/dawgs/cypher/models/pgsql"
 	"github.com/specterops/dawgs/cypher/models/pgsql/translate"
+	"github.com/specterops/dawgs/drivers/pg/pgutil"
 	"github.com/specterops/dawgs/graph"
 )
 
@@ -71,13 +73,24 @@ func TestRace(t *testing.T) {
 		}
 		n++
 		params := map[string]any{}
+		// every other query runs against ONE shared pgutil.InMemoryKindMapper that already knows every kind
+		// the query needs (a warm-up translation defines them): the concurrent calls then only look kinds up
+		var km pgsql.KindMapper = mapper{}
+		if qi%2 == 1 {
+			im := pgutil.NewInMemoryKindMapper()
+			for _, k := range []string{"NodeKind1", "NodeKind2", "EdgeKind1", "EdgeKind2"} {
+				im.Put(graph.StringKind(k))
+			}
+			translate.Translate(context.Background(), q, im, params, translate.DefaultGraphID)
+			km = im
+		}
 		outs := make([]string, 6)
 		var wg sync.WaitGroup
 		for g := range outs {
 			wg.Add(1)
 			go func() {
 				defer wg.Done()
-				res, err := translate.Translate(context.Background(), q, mapper{}, params, translate.DefaultGraphID)
+				res, err := translate.Translate(context.Background(), q, km, params, translate.DefaultGraphID)
 				if err != nil {
 					outs[g] = "ERR " + err.Error()
 					return
